@@ -255,8 +255,10 @@ def canon_skel(sk: dict, target: str) -> dict:
     return {"kind": sk["kind"], "name": sk["name"], "scope": sk["scope"], "mods": list(sk["mods"]),
             "fields": mem(sk["fields"], dc), "ctor": mem(sk["ctor"]),
             "methods": [{"pre": list(m["pre"]), "ret": ty(m["ret"]), "name": m["name"], "params": mem(m["params"]), "post": list(m["post"])} for m in sk["methods"]],
-            "items": list(sk["items"]),
-            "codes": [{"name": k["name"], "fields": mem(k["fields"], dc), "ctor": mem(k["ctor"])} for k in sk["codes"]]}
+            "items": list(sk["items"]), "fmods": list(sk.get("fmods", [])),
+            "codes": [{"name": k["name"], "fields": mem(k["fields"], dc), "ctor": mem(k["ctor"]), "fmods": list(k.get("fmods", [])),
+                       "methods": [{"pre": list(m["pre"]), "ret": ty(m["ret"]), "name": m["name"], "params": mem(m["params"]), "post": list(m["post"])}
+                                   for m in k.get("methods", [])]} for k in sk["codes"]]}
 
 
 def first_diff(a, b, path=""):
@@ -288,7 +290,7 @@ def member_shape(j: dict) -> str:
                      ('r' if m['ret'] else '') + str(len(m['params'])) for m in j['methods']})
         return f"interface/{','.join(j['targets'])}/{' '.join(ms)}"
     if k == "Function":
-        return f"function/{'anon' if j['anonymous'] else 'named'}/{len(j['params'])}/{'r' if j['ret'] else ''}"
+        return f"function/{'anon' if j['anonymous'] else 'named'}/{len(j['params'])}/{'r' if j['ret'] else ''}" + ("" if j['anonymous'] else "/" + ",".join(j['targets']))
     if k == "ErrorDomain":
         return "error/" + ",".join(str(len(c['params'])) for c in j['codes'])
     return k.lower() + "/" + str(len(j.get("items", [])))
